@@ -39,10 +39,14 @@ func (c *scriptCache) Peek(s gostatsd.Source) (*gostatsd.Instance, bool) {
 	i, ok := c.table[s]
 	return i, ok
 }
-func (c *scriptCache) IpSink() chan<- gostatsd.Source              { return c.sink }
-func (c *scriptCache) InfoSource() <-chan gostatsd.InstanceInfo    { return c.source }
-func (c *scriptCache) EstimatedTags() int                          { return 1 }
-func (c *scriptCache) set(t map[gostatsd.Source]*gostatsd.Instance) { c.mu.Lock(); c.table = t; c.mu.Unlock() }
+func (c *scriptCache) IpSink() chan<- gostatsd.Source           { return c.sink }
+func (c *scriptCache) InfoSource() <-chan gostatsd.InstanceInfo { return c.source }
+func (c *scriptCache) EstimatedTags() int                       { return 1 }
+func (c *scriptCache) set(t map[gostatsd.Source]*gostatsd.Instance) {
+	c.mu.Lock()
+	c.table = t
+	c.mu.Unlock()
+}
 
 // capturing downstream handler
 type capHandler struct {
